@@ -5,8 +5,10 @@ import (
 	"fmt"
 	"math/rand"
 	"os"
+	"strings"
 
 	"pegsim/sim"
+	"pegsim/simvfs"
 	"pegsim/world"
 )
 
@@ -27,6 +29,11 @@ type c02Plan struct {
 	// FailAt injects one statement failure (block rolled back) and takes
 	// crash images along the failure path as well.
 	FailAt *sqlPoint `json:"fail_at,omitempty"`
+	// VFS routes the daemon's database files through the simulated-disk seam
+	// and additionally takes an image before every mutating file operation
+	// (write, sync, truncate, delete) of the selected blocks: crash points
+	// inside statements and inside COMMIT.
+	VFS bool `json:"vfs,omitempty"`
 }
 
 type sqlPoint struct {
@@ -42,7 +49,7 @@ func init() { Register(checkC02{}) }
 func (checkC02) ID() string    { return "C02" }
 func (checkC02) Level() string { return "fault_enumeration" }
 func (checkC02) Rule() string {
-	return "worlds drawn from the seed (all eras, outages, conversions, snapshots); within a world every statement-boundary crash point of the selected blocks is enumerated (quick: a sample of blocks per world, thorough: all blocks); a case is distinct if its SIGKILL image (all files of the database directory) differs by content hash; non-trivial = image taken inside an open block transaction after at least one write, or between COMMIT returning and the next statement"
+	return "worlds drawn from the seed (all eras, outages, conversions, snapshots); within a world every statement-boundary crash point of the selected blocks is enumerated (quick: a sample of blocks per world, thorough: all blocks), and in half of the worlds (simulated-disk seam) additionally the instant before every file write / sync / truncate / delete SQLite performs inside those statements and inside COMMIT; a case is distinct if its SIGKILL image (all files of the database directory) differs by content hash; non-trivial = image taken inside an open block transaction after at least one write, or between COMMIT returning and the next statement"
 }
 
 func (checkC02) Gen(seed uint64, tier string) (*Scenario, error) {
@@ -84,6 +91,7 @@ func (checkC02) Gen(seed uint64, tier string) (*Scenario, error) {
 	if rng.Intn(5) == 0 {
 		plan.ResumeFor = 0
 	}
+	plan.VFS = rng.Intn(2) == 0
 	pb, _ := json.Marshal(plan)
 	return &Scenario{Profile: &p, Spec: w.Spec, Plan: pb}, nil
 }
@@ -144,16 +152,40 @@ func (checkC02) Run(env *Env, sc *Scenario) (*Violation, error) {
 		wrote := false
 		cut := false
 		violHeight := uint32(0)
+		stopVFS := false
+		type pendingImg struct {
+			dir, where string
+			h          uint32
+		}
+		var queue []pendingImg
+		// capture takes the SIGKILL image of this instant if it differs from every
+		// image seen before; full: file-operation level point (hash all files in full)
+		capture := func(where string, full bool) (string, string, bool) {
+			var fp string
+			if full {
+				fp = "F" + fullDirHash(r.Dir)
+			} else {
+				fp = dirHash(r.Dir)
+			}
+			if seen[fp] {
+				env.Stats.Probe("image_same_as_earlier_point")
+				return "", fp, false
+			}
+			seen[fp] = true
+			img := env.Dir("img")
+			if err := sim.CopyDir(r.Dir, img); err != nil {
+				rerr = err
+				return "", fp, false
+			}
+			env.Stats.Fault("sigkill_image", 1)
+			return img, fp, true
+		}
+		var judge func(img, where string, h uint32)
 		examine := func(phase string, ev *sim.SQLEvent) {
 			if viol != nil {
 				return
 			}
 			h := r.BlockHeight
-			defer func() {
-				if viol != nil && violHeight == 0 {
-					violHeight = h
-				}
-			}()
 			if len(want) > 0 && !want[h] {
 				return
 			}
@@ -162,18 +194,11 @@ func (checkC02) Run(env *Env, sc *Scenario) (*Violation, error) {
 				return
 			}
 			env.Stats.Evaluations++
-			img := env.Dir("img")
-			defer os.RemoveAll(img)
-			if err := sim.CopyDir(r.Dir, img); err != nil {
-				rerr = err
+			where := fmt.Sprintf("%s %s#%d(%s) of height %d", phase, ev.Op, r.BlockStmt, ev.Caller, h)
+			img, fp, ok := capture(where, false)
+			if !ok {
 				return
 			}
-			fp := dirHash(img)
-			if seen[fp] {
-				env.Stats.Probe("image_same_as_earlier_point")
-				return
-			}
-			seen[fp] = true
 			if phase == "after-commit" {
 				env.Stats.Probe("crash_right_after_commit")
 				env.Stats.Seen("img:" + fp)
@@ -186,8 +211,57 @@ func (checkC02) Run(env *Env, sc *Scenario) (*Violation, error) {
 			} else {
 				env.Stats.Probe("crash_before_first_write")
 			}
-			env.Stats.Fault("sigkill_image", 1)
-			where := fmt.Sprintf("%s %s#%d(%s) of height %d", phase, ev.Op, r.BlockStmt, ev.Caller, h)
+			judge(img, where, h)
+		}
+		// file-operation level crash points: images are taken inside the SQLite
+		// call and judged once the call has returned
+		curStmt := ""
+		if plan.VFS {
+			r.UseVFS = true
+			r.VFS = func(op *simvfs.Op) (int, int) {
+				switch op.Kind {
+				case simvfs.Write, simvfs.Sync, simvfs.Trunc, simvfs.Delete:
+				default:
+					return 0, 0
+				}
+				h := r.BlockHeight
+				if viol != nil || stopVFS || curStmt == "" || (len(want) > 0 && !want[h]) {
+					return 0, 0
+				}
+				if cut || env.Expired() {
+					cut = true
+					return 0, 0
+				}
+				env.Stats.Evaluations++
+				where := fmt.Sprintf("before file operation %s (#%d of the attempt) inside %s of height %d", op, r.BlockVfsOp, curStmt, h)
+				img, fp, ok := capture(where, true)
+				if !ok {
+					return 0, 0
+				}
+				env.Stats.Probe("crash_inside_statement_before_" + op.Kind.String() + "_" + op.Role)
+				env.Stats.Seen("vimg:" + op.Kind.String() + ":" + op.Role + ":" + fp[:6])
+				queue = append(queue, pendingImg{img, where, h})
+				return 0, 0
+			}
+		}
+		flush := func() {
+			q := queue
+			queue = nil
+			for _, p := range q {
+				if viol == nil && rerr == nil {
+					judge(p.dir, p.where, p.h)
+				} else {
+					os.RemoveAll(p.dir)
+				}
+			}
+		}
+		judge = func(img, where string, h uint32) {
+			defer os.RemoveAll(img)
+			defer func() {
+				if viol != nil && violHeight == 0 {
+					violHeight = h
+				}
+			}()
 			// (1) recovery + image consistency
 			rc := sim.NewReplica(w, img)
 			rc.Follow, rc.PerHeight = true, true
@@ -232,8 +306,12 @@ func (checkC02) Run(env *Env, sc *Scenario) (*Violation, error) {
 				ok := rc.RunTo(target)
 				env.Stats.Blocks += rc.Commits
 				if !ok {
+					errs := sim.TakeErrors()
+					if len(errs) > 4 {
+						errs = errs[len(errs)-4:]
+					}
 					viol = &Violation{Prop: "C02", Oracle: "resume-liveness", Signature: "resume stalls: " + trunc(rc.Exit, 40),
-						Detail: fmt.Sprintf("crash %s: restarted node stuck at %d (exit=%q) target %d", where, rc.Synced(), rc.Exit, target)}
+						Detail: fmt.Sprintf("crash %s: restarted node stuck at %d (exit=%q) target %d; last daemon errors: %q", where, rc.Synced(), rc.Exit, target, errs)}
 				} else if hh, msg := compareHeights(ref, rc.Heights); msg != "" {
 					viol = &Violation{Prop: "C02", Oracle: "resume-equals-uninterrupted", Signature: "resumed ledger differs: " + msg,
 						Detail: fmt.Sprintf("crash %s: after restart, height %d: %s", where, hh, msg)}
@@ -254,9 +332,14 @@ func (checkC02) Run(env *Env, sc *Scenario) (*Violation, error) {
 				env.Stats.Probe("injected_failure_swallowed(C10)")
 			}
 			if stopExamining {
+				stopVFS = true
 				return nil
 			}
 			examine("before", ev)
+			curStmt = ""
+			if r.BlockHeight != 0 && ev.Caller != "" && !strings.HasPrefix(ev.Caller, "api:") {
+				curStmt = fmt.Sprintf("%s#%d(%s)", ev.Op, r.BlockStmt, ev.Caller)
+			}
 			if (ev.Op == "exec") && sim.IsWrite(ev.Query) {
 				defer func() { wrote = true }()
 			}
@@ -269,6 +352,8 @@ func (checkC02) Run(env *Env, sc *Scenario) (*Violation, error) {
 			return nil
 		}
 		r.SQL.After = func(ev *sim.SQLEvent, err error) {
+			curStmt = ""
+			flush()
 			if stopExamining {
 				return
 			}
@@ -290,6 +375,7 @@ func (checkC02) Run(env *Env, sc *Scenario) (*Violation, error) {
 		env.Stats.Blocks += r.Commits
 		exit := r.Exit
 		r.Stop()
+		flush()
 		if viol == nil && !ok && plan.FailAt == nil {
 			rerr = fmt.Errorf("crash-pass replica did not reach the tip without faults (exit=%q)", exit)
 		}
